@@ -63,10 +63,10 @@ def reset_monitor():
     _mon["iters"] = 0
 
 
-def fast_case(spec, recipe, w):
+def fast_case(spec, recipe, w, warm=None):
     install_monitor()
     reset_monitor()
-    obs = A.eval_case(spec, recipe, "cbc", "fast", w)
+    obs = A.eval_case(spec, recipe, "cbc", "fast", w, warm=warm)
     obs["iters"] = _mon["iters"]
     return obs
 
@@ -178,6 +178,24 @@ def run(task):
                     res["violations"].append({"msg": msg, "case": {"spec": spec, "recipe": recipe, "w": w},
                                               "sig": h([msg.split(':')[0][:40], m, n, w, i // 20])})
                     continue
+                k = len(res["state_set"])
+                if k % 5 == 0:
+                    # non-initial state: neighbouring continuum aligned before, turned into this one by a mutator
+                    warm = {"recipe": recipe if (k // 20) % 2 == 0 else {"k": "pos", "de": 0.35},
+                            "how": A.WARM_KINDS[(k // 5) % len(A.WARM_KINDS)]}
+                    obs2 = fast_case(spec, recipe, w, warm=warm)
+                    res["evaluations"] += 1
+                    res["transitions"] += max(1, obs2["iters"])
+                    res["traces"] += 1
+                    msg2 = judge(spec, recipe, w, obs2, opt)
+                    if msg2 is None and obs2["ok"] and not close(obs2["disorder"], obs["disorder"]):
+                        msg2 = f"fast alignment (window {w}) gives {obs2['disorder']} on the same continuum reached by " \
+                               f"{warm['how']}() after an earlier alignment, {obs['disorder']} on a fresh one"
+                    if msg2:
+                        res["violations"].append({"msg": msg2 + f" [history: {warm['how']}]",
+                                                  "case": {"spec": spec, "recipe": recipe, "w": w, "warm": warm},
+                                                  "sig": h(["warm", msg2.split(':')[0][:40], m, n, w, i // 20])})
+                        continue
                 res["outcomes"].append(h([round(obs["disorder"], 5), None if opt is None else round(opt, 5)]))
                 if w * n < m and obs["iters"] >= 2:
                     res["nontrivial"].append(key)
@@ -277,5 +295,5 @@ def replay(case):
     spec, recipe, w = case["spec"], case["recipe"], case["w"]
     m = sum(len(us) for _, us in spec["annotators"])
     opt = optimum(spec, recipe) if m <= 14 else None
-    msg = judge(spec, recipe, w, fast_case(spec, recipe, w), opt)
+    msg = judge(spec, recipe, w, fast_case(spec, recipe, w, warm=case.get("warm")), opt)
     return [{"msg": msg, "case": case}] if msg else []
